@@ -114,6 +114,8 @@ type Engine struct {
 
 	fatalSeen     []string
 	raceFound     []string
+	choiceSig     []string       // harness-level choices taken on this path (menu entries, sizes): diversifies race candidates
+	raceSigs      map[string]int // race label -> number of distinct choice signatures recorded
 	raceKeys      []string
 	curFrame      *frame
 	lastPanicFn   string
@@ -566,6 +568,27 @@ func (e *Engine) Assert(label string, c value) {
 	}
 }
 
+// vioKey: violations are recorded once per label; race candidates once per label and harness-level
+// choice signature (at most 6 signatures per label), because whether the Go race detector can
+// confirm a candidate natively depends on the query shape and not only on the racing functions.
+func (e *Engine) vioKey(label, kind string) string {
+	if kind != "race" {
+		return label + "|"
+	}
+	sig := strings.Join(e.choiceSig, ",")
+	key := label + "#" + sig + "|"
+	if _, ok := e.vioIndex[key]; ok {
+		return key
+	}
+	if e.raceSigs == nil {
+		e.raceSigs = map[string]int{}
+	}
+	if e.raceSigs[label] >= 6 {
+		return label + "|"
+	}
+	return key
+}
+
 // obligation checks pc ∧ neg (neg is the negated property as SMT Bool) w.r.t. known findings.
 func (e *Engine) obligation(label, kind, detail, neg string) {
 	known := e.knownFor(label)
@@ -594,7 +617,7 @@ func (e *Engine) obligation(label, kind, detail, neg string) {
 	case "sat":
 		var m map[string]string
 		var order []string
-		if _, dup := e.vioIndex[label+"|"]; !dup {
+		if _, dup := e.vioIndex[e.vioKey(label, kind)]; !dup {
 			m, order = e.model()
 		}
 		e.S.Send("(pop)")
@@ -642,9 +665,18 @@ func (e *Engine) recordViolation(label, kind, detail string, m map[string]string
 		e.Res.Known = append(e.Res.Known, v)
 		return
 	}
+	if known == "" {
+		key = e.vioKey(label, kind)
+	}
 	if v, ok := e.vioIndex[key]; ok {
 		v.Count++
 		return
+	}
+	if kind == "race" && key != label+"|" {
+		e.raceSigs[label]++
+		if _, ok := e.vioIndex[label+"|"]; !ok {
+			defer func() { e.vioIndex[label+"|"] = e.vioIndex[key] }()
+		}
 	}
 	if vfs != nil && len(vfs.ops) > 0 {
 		detail += " fs-trace: " + strings.Join(vfs.ops, " ")
@@ -825,6 +857,7 @@ func (e *Engine) runPath(prefix []Decision, run func()) {
 	e.depth = 0
 	e.fatalSeen = e.fatalSeen[:0]
 	e.raceFound, e.raceKeys = nil, nil
+	e.choiceSig = e.choiceSig[:0]
 	e.lastPanicFn = ""
 	e.observe = e.observe[:0]
 	e.Res.Paths++
